@@ -9,6 +9,13 @@ HEADER = ls.HEADER_MON
 from lockstep import RK, coq_pkt, responses, grammar_terms
 
 
+PIPE_HEADER = """From MM Require Import Proofs.C10Proofs Proofs.DeferProofs Proofs.PipelineProofs.
+Definition pipe_verdict (B BATCH hs : N) (dep : bool) (login rest : list ev) : bool :=
+  let s := fst (exec B BATCH (fst (boot B BATCH hs)) login) in
+  let '(_, _, _, _, _, v) := execp B BATCH dep RKOk (mk_mon RDone 0) s [] rest in v.
+"""
+
+
 def big_prepare_probe(ctx):
     """COM_STMT_PREPARE whose placeholder count sits on both sides of the 2-byte field of the prepare-OK (65535 / 65536 /
     70000), followed by a PING: what the prepare-OK announces must be what follows it (or the command gets ONE ERR), and the
@@ -109,6 +116,21 @@ def run(ctx: core.Ctx):
             if d.blocked() == "read":
                 d.payload(("ping",))
             drivers.append(d); terms.append(ls.coq_term(d)); d.close()
+    # conversations in which the client does not wait for the prompt: commands sent while the previous one is still being
+    # answered (application call, row source, cooperative yield or socket drain pending).  Replayed on the machine like the
+    # others; the theorem's schedule `execp` (every command handed over at a prompt, the monitor restarted there) is evaluated
+    # on the same events and must report v = true
+    npipe = 80 if ctx.quick else 2500
+    pipe_terms, pipe_drivers = [], []
+    for i in range(npipe):
+        d = ls.Driver(rng)
+        d.pipelined = False
+        d.handshake(True, rng.random() < 0.5); d.decide("ASuccess"); d.app_result("void")
+        ls.random_walk(rng, d, rng.choice([20, 40, 60]), faults=False, kills=False, auth_variants=False, pauses=True, pipeline=True)
+        drivers.append(d); terms.append(ls.coq_term(d)); d.close()
+        if d.pipelined:
+            pipe_drivers.append(d)
+            pipe_terms.append(f"pipe_verdict {d.B} {d.BATCH} {d.hs_size} {core.coq_bool(d.depeof)} {core.coq_list(d.events[:3])} {core.coq_list(d.events[3:])}")
     model = core.run_coq_terms(ctx, "c03t", HEADER, terms, shard=20)
     disagreements = []
     kinds = {}
@@ -125,7 +147,12 @@ def run(ctx: core.Ctx):
     disagreements += [dict(kind="packet-bytes", **b) for b in pbad if b["kind"].endswith("-bytes")]
     pdecode = [b for b in pbad if b["kind"].endswith("-decode")]
     # ---- oracle: the protocol's response grammar (Model/Resp.v, evaluated in Coq) on the implementation's packets
-    oterms, refs, witness = grammar_terms(drivers, monitor=True)
+    oterms, refs, witness = grammar_terms([d for d in drivers if not getattr(d, "pipelined", False)], monitor=True)
+    pv = core.run_coq_terms(ctx, "c03v", HEADER + PIPE_HEADER, pipe_terms, shard=40) if pipe_terms else []
+    for d, v in zip(pipe_drivers, pv):
+        if v is not True and witness is None:
+            witness = dict(kind="pipelined-conversation", problem="the schedule of the pipelining theorem rejects the conversation: some response "
+                           "is not complete when the next command is dispatched, or a packet does not fit the grammar", verdict=repr(v), events=d.events[:60])
     oks = core.run_coq_terms(ctx, "c03o", HEADER, oterms, shard=400)
     for ok, (d, cmd, pk) in zip(oks, refs):
         if ok is not True and witness is None:
@@ -155,7 +182,7 @@ def run(ctx: core.Ctx):
              "c03_lockstep_conversation is stated with) inside Coq; application failures in every callback of the command phase; packets.make_ok / make_eof / make_error / make_column_definition_41 (also as COM_FIELD_LIST) / make_handshake_v10 on "
              "random arguments byte for byte against Model/Packets.v and through its reference decoders. distinct = traces",
         samples=[dict(events=drivers[0].events[:12])], distinct=len(drivers),
-        extra=dict(traces=len(drivers), commands=kinds, responses_checked=len(oterms), disagreements=len(disagreements), packet_cases=npk,
+        extra=dict(traces=len(drivers), pipelined_conversations=len(pipe_drivers), early_commands=sum(1 for d in pipe_drivers for c in d.cmds if c and c[-1] == "early"), commands=kinds, responses_checked=len(oterms), disagreements=len(disagreements), packet_cases=npk,
                    packet_kinds=pkinds),
         assumptions=["row contents are C05's business, catalog contents C16's",
                      "asyncio semantics as transcribed in Model/Conn.v (DESIGN.md appendix B)"],
